@@ -27,7 +27,7 @@ def make_fasta(rng, n, maxlen, width, eol="\n", descriptions=True, final_newline
     rng.shuffle(order)          # file order differs from the sorted order of the names
     for i in order:
         name = "c%d%s" % (i, rng.choice(["", "x", "_alt", ".1"]))
-        desc = (" " + rng.choice(["desc", "len=5 x"])) if descriptions and rng.random() < 0.4 else ""
+        desc = rng.choice([" desc", " len=5 x", "\tlength=13", "\tx y", "  two spaces"]) if descriptions and rng.random() < 0.4 else ""
         L = rng.choice([1, width - 1, width, width + 1, 2 * width, 2 * width + 1, rng.randint(1, maxlen)])
         L = max(1, min(L, maxlen))
         s = "".join(rng.choice("ACGTNacgt") for _ in range(L))
